@@ -39,7 +39,7 @@ def run(prog, tier, res):
     res.trusted = ["spec table tables/spec/c20.json transcribed from the property statement", "BTreeMap iterates in key order; chronobox_fifo's behaviour is C07"]
     R1 = res.rule("C20.R1", "validate before write: File::create dominated by the `?` of collecting every board's validated stream; per-board validation = consumed everything, epoch-0 marker found, its top bit clear", 4)
     R2 = res.rule("C20.R2", "chronobox_time: Some iff consecutive counters, alternating top bits and the timestamp on the right side; value = (ts + ((counter+1)/2) << 24) / 10 MHz", 1)
-    R3 = res.rule("C20.R3", "stream assembly: Chronobox events only, CBFn banks only, data appended in iteration order to an ordered map keyed by board name, files in sort_run_files order", 4)
+    R3 = res.rule("C20.R3", "stream assembly: Chronobox events only, CBFn banks only (and no other condition on the bank), data appended in iteration order to the one ordered map keyed by board name that is validated and written, files in sort_run_files order", 6)
     R4 = res.rule("C20.R4", "element conservation: a piece ending in a marker loses exactly the marker; a piece without marker is kept whole", 2)
     R5 = res.rule("C20.R5", "row fields: board, channel, edge and time come from the timestamp entry and its enclosing markers; previous marker := next marker", 2)
 
@@ -166,6 +166,41 @@ def run(prog, tier, res):
         why = "map type %s, key from bank name: %s, data of the same bank appended in order: %s, receiver: %s, guarded by a valid CBFn name: %s" % (
             mapty[:40], bank is not None, data_ok, recv_ok, guard_ok)
     check(res, R3, ok, MAIN, "assembly", "bank data is not appended as `ordered_map.entry(board name of the CBFn bank).or_default().extend(bank data)` under a valid bank name (%s)" % why, b.where())
+    # the map the bank data is appended to IS the map whose entries are validated and written: same local, and the only
+    # calls that take it mutably are `entry(..)` (a per-file map merged with `BTreeMap::append` would replace, not
+    # concatenate, the bytes of a board that has data in several files)
+    same_map = False
+    why_map = "no entry()/validated map found"
+    if len(entries) == 1:
+        em = an.terms.operand(entries[0][1]["args"][0])
+        while em[0] in ("ref", "deref"):
+            em = em[1]
+        vm = None
+        for bb_, t_ in b.calls():
+            if short(cname(t_)) == "Iterator::map" and len(t_["args"]) == 2:
+                c_ = strip(an.terms.operand(t_["args"][1]))
+                if c_[0] == "aggr" and c_[1] == "closure:" + board_closure:
+                    vm = unmut(an.terms.operand(t_["args"][0]))
+                    while vm[0] == "call" and short(vm[1]) == "IntoIterator::into_iter" and vm[2]:
+                        vm = vm[2][0]
+                        while vm[0] in ("ref", "deref"):
+                            vm = vm[1]
+        if em[0] == "mut" and vm is not None and vm[0] == "mut" and vm[1] == em[1]:
+            muts = []
+            for bb_, t_ in b.calls():
+                for a_ in t_["args"]:
+                    x_ = an.terms.operand(a_)
+                    if x_[0] == "ref" and x_[1][0] == "mut" and x_[1][1] == em[1]:
+                        s_ = short(cname(t_))
+                        # shared borrows (len, iter, get ..) are not mutations
+                        lty = b.locals[a_["p"]["l"]]["ty"] if a_.get("k") in ("move", "copy") and not a_["p"]["pr"] else {}
+                        if lty.get("k") == "ref" and lty.get("m"):
+                            muts.append(s_)
+            same_map = all(m_.endswith("::entry") for m_ in muts) and bool(muts)
+            why_map = "mutating calls on the map: %s" % sorted(set(muts))
+        else:
+            why_map = "the map that receives the data is not the map that is validated and written"
+    check(res, R3, same_map, MAIN, "one-map", "bank data must be appended directly to the per-board map that is later validated and written (%s)" % why_map, b.where())
     sorts = [(bb, t) for bb, t in b.calls() if cname(t) == SORT]
     loop_ok = False
     for bb, t in b.calls():
